@@ -55,6 +55,10 @@ func (w *World) AfterEachStep(f func()) { w.hooks = append(w.hooks, f) }
 
 // Violate records an oracle failure.
 func (w *World) Violate(rule, sig, format string, args ...interface{}) {
+	if simrt.Stopping() {
+		// the run is being torn down: leftover oracle code sees a world that is being dismantled
+		return
+	}
 	w.mu.Lock()
 	defer w.mu.Unlock()
 	d := fmt.Sprintf(format, args...)
